@@ -466,19 +466,20 @@ SRV = "rpyc/utils/server.py::"
 PLANS["C17"] = dict(
     title="Closing a server ends all its clients; departed clients leave nothing behind (partial: tracking and close discipline)",
     contracts=ALL_CONTRACTS, specs=ALL_SPECS, table="module",
-    targets=[SRV + n for n in ("ThreadPoolServer._drop_connection", "ThreadPoolServer.close", "Server._authenticate_and_serve_client",
-                               "OneShotServer._accept_method")],
+    targets=[SRV + n for n in ("Server.close", "ThreadPoolServer._drop_connection", "ThreadPoolServer.close",
+                               "Server._authenticate_and_serve_client", "OneShotServer._accept_method")],
     lemmas=[], compositions=[], native_focus=[], design_ref="DESIGN.md section 4, C17",
     assumptions=COMMON_ASSUMPTIONS + [
-        "PARTIAL, sequential: VERIFIED - ThreadPoolServer.close closes the base server, wakes and joins its threads and then drops "
+        "PARTIAL, sequential: VERIFIED - Server.close is idempotent; the first call marks the server closed and inactive, attempts "
+        "to shut the listener down and closes it, then for EVERY tracked client socket attempts a shutdown (failure ignored) and "
+        "closes it, and empties the tracking set; ThreadPoolServer.close closes the base server, wakes and joins its threads and then drops "
         "EVERY connection it still holds (fd_to_conn is empty afterwards; fix F7); _drop_connection forgets exactly that descriptor "
         "and closes exactly that connection; Server._authenticate_and_serve_client, on every exit for which an Exception (or "
         "nothing) is raised - authentication refused, authentication raising, serving raising, normal end - attempts to shut the "
         "client's socket down and removes exactly that socket from self.clients, serving at most once and only after successful "
         "authentication; OneShotServer._accept_method serves one client and then closes the server on every exit",
-        "ASSUMED interface contracts: Server.close (sets of socket objects: listener shut down and closed, every tracked client "
-        "socket shut down and closed, the set emptied, idempotent), Server._serve_client (builds and serves the connection; its "
-        "teardown is C11)",
+        "ASSUMED interface contract: Server._serve_client (builds and serves the connection; its teardown is C11); the registrar's "
+        "unregister and the logger are dynamic objects",
         "threads, queues, poll objects, sockets and the authenticator are dynamic objects: each method call is a pair of ghost "
         "events with any outcome; Thread.join / Queue.put are not given blocking semantics",
         "NOT covered (threads / OS, out of reach): that a shutdown makes the client observe end-of-stream promptly, descriptor "
